@@ -1,7 +1,7 @@
 #!/usr/bin/env python3
 """Rewrites the generated parts of DESIGN.md (between the BEGIN/END GENERATED markers): the list of repaired and recorded
 defects (from known_findings.jsonl and the fix: commits of /repo) and the table of seeded changes (from seeded/*/meta.json)."""
-import json, glob, subprocess, re, os
+import json,os, glob, subprocess, re, os
 root='/verif'
 kf=[json.loads(l) for l in open(f'{root}/known_findings.jsonl') if l.strip() and not l.startswith('#')]
 log=subprocess.check_output(['git','-C','/repo','log','--format=%h\t%s']).decode().strip().split('\n')
@@ -38,6 +38,9 @@ def remark(m):
     if m.get('first_run'): parts.append('first run: '+m['first_run'])
     if m.get('strengthening'): parts.append('then: '+m['strengthening'])
     return '; '.join(x for x in parts if x)
+_ms=[json.load(open(f'/verif/seeded/{n}/meta.json')) for n in sorted(os.listdir('/verif/seeded')) if os.path.exists(f'/verif/seeded/{n}/meta.json')]
+_missed=sum(1 for m in _ms if m.get('first_run_outcome')=='missed'); _nd=sum(1 for m in _ms if not m.get('detected_by'))
+out.append(f"{len(_ms)} changes in all ({len(_ms)-_missed} caught by the check as it stood when the change arrived, {_missed} missed on the first run and caught after the check was extended, {_nd} still not caught). Names with a suffix b are second changes for the same property, written by agents that were told which site the first change had used.\n")
 out.append('| seeded | breaks | needs, in order to manifest | caught by | remark |')
 out.append('|---|---|---|---|---|')
 for f in sorted(glob.glob(f'{root}/seeded/*/meta.json')):
